@@ -39,6 +39,9 @@ def _ref_gconst(n):
     # configuration declares constant global nm0, its resource declares constant global nm1; function block fb re-declares nm2 as VAR_EXTERNAL without CONSTANT.
     # P0018 iff nm2 names one of the constant globals (2.4.3: globals of the configuration and of its resources)
     return {'P0018'} if n[2] in (n[0], n[1]) else set()
+def _ref_task2(n):
+    # two configurations, each with one task (nm0 / nm2) and one program instance (WITH nm1 / WITH nm3): a task of one configuration is not a task of the other
+    return {'P0011'} if (n[1] != n[0] or n[3] != n[2]) else set()
 def _ref_fbcall(n):
     # program main declares instance nm0 and invokes nm1; function block logger declares instance nm2 and invokes nm3.
     # P0021 iff an invoked name is not an instance variable of its own POU
@@ -58,6 +61,9 @@ RULES = {
     'global_const_requires_external_const': dict(mod='rule_var_decl_global_const_requires_external_const', k=3, alpha=['a', 'b', 'c'], ref=_ref_gconst, codes={'P0018'},
         text='CONFIGURATION cfg\n  VAR_GLOBAL CONSTANT\n    nm0 : INT := 1;\n  END_VAR\n  RESOURCE res ON PLC\n    VAR_GLOBAL CONSTANT\n      nm1 : INT := 2;\n    END_VAR\n    TASK tsk(INTERVAL := T#100ms, PRIORITY := 1);\n    PROGRAM inst WITH tsk : prog;\n  END_RESOURCE\nEND_CONFIGURATION\n'
              'PROGRAM prog\nVAR\n  x : INT;\nEND_VAR\nEND_PROGRAM\nFUNCTION_BLOCK fb\nVAR_EXTERNAL\n  nm2 : INT;\nEND_VAR\nEND_FUNCTION_BLOCK\n'),
+    'program_task_two_configurations': dict(mod='rule_program_task_definition_exists', k=4, alpha=['a', 'b'], ref=_ref_task2, swap=('cfga', 'cfgb'), codes={'P0011'},
+        text='CONFIGURATION cfga\n  RESOURCE ra ON PLC\n    TASK nm0(INTERVAL := T#100ms, PRIORITY := 1);\n    PROGRAM ia WITH nm1 : prog;\n  END_RESOURCE\nEND_CONFIGURATION\n'
+             'CONFIGURATION cfgb\n  RESOURCE rb ON PLC\n    TASK nm2(INTERVAL := T#100ms, PRIORITY := 1);\n    PROGRAM ib WITH nm3 : prog;\n  END_RESOURCE\nEND_CONFIGURATION\nPROGRAM prog\nVAR\n  x : INT;\nEND_VAR\nEND_PROGRAM\n'),
     'program_task_definition_exists': dict(mod='rule_program_task_definition_exists', k=2, alpha=['a', 'b'], ref=_ref_task,
         text='CONFIGURATION cfg\n  RESOURCE res ON PLC\n    TASK nm0(INTERVAL := T#100ms, PRIORITY := 1);\n    PROGRAM inst WITH nm1 : prog;\n  END_RESOURCE\nEND_CONFIGURATION\nPROGRAM prog\nVAR\n  x : INT;\nEND_VAR\nEND_PROGRAM\n'),
 }
@@ -196,6 +202,17 @@ def k1(ctx, kr):
 
 
 # ---------------------------------------------------------------------------------------------- K3 stage composition
+def _violating_example(mods):
+    """replay for a composition finding: a program that violates (only) the rule of one of the modules must be reported with that rule's code"""
+    import itertools
+    for mod in mods:
+        for rname, spec in RULES.items():
+            if spec['mod'] != mod: continue
+            for names in itertools.product(spec['alpha'], repeat=spec['k']):
+                want = spec['ref'](list(names))
+                if want: return ('rule', (_subst_text(spec['text'], list(names)), sorted(want), rname))
+    return None
+
 def _k3_run(ctx, part):
     P = ctx.program()
     key = P.find_fn('ironplc-analyzer', 'stages::semantic')
@@ -217,7 +234,7 @@ def _k3_run(ctx, part):
         part.nontrivial += 1
         called = list(st['called'])
         missing = [m for m in rule_mods if m not in called]
-        if missing: part.add('C02/K3/rule-not-registered/' + '+'.join(missing), 'stages::semantic never runs the rule module(s) %s' % missing, {'called': called}, None)
+        if missing: part.add('C02/K3/rule-not-registered/' + '+'.join(missing), 'stages::semantic never runs the rule module(s) %s' % missing, {'called': called}, _violating_example(missing))
         if len(called) != len(set(called)): part.add('C02/K3/rule-run-twice', 'a rule runs twice', {'called': called}, None)
         if pr.panic: part.add('C02/K3/panic', pr.panic.msg, {}, None); return
         s = z3.Solver(); s.add(*pr.pc); s.check(); m = s.model()
@@ -225,7 +242,7 @@ def _k3_run(ctx, part):
         res = pr.result
         got = [M.deref(M.deref(d).f[0]).conc()[2:] for d in res.f[0].items] if res.disc == 1 else []
         if sorted(got) != sorted(failing):
-            part.add('C02/K3/diagnostics-lost', 'semantic() returns diagnostics of %s although the failing rules are %s' % (got, failing), {'failing': failing, 'got': got}, None)
+            part.add('C02/K3/diagnostics-lost', 'semantic() returns diagnostics of %s although the failing rules are %s' % (got, failing), {'failing': failing, 'got': got}, _violating_example([f for f in failing if f not in got]))
         if len(part.samples) < 2: part.samples.append({'failing_rules': failing, 'returned': got})
     M.split_depth = None
     M.explore(entry, on_path, max_paths=400)
